@@ -115,6 +115,9 @@ enum Ev {
     None,
     NonTerminal,
     Terminal,
+    /// a non-terminal function (index 0) whose root lies just after the root of the terminal one
+    /// (index 1) in the same step: time order and index order differ
+    TerminalPair,
 }
 
 pub fn monitor(c: &Cfg, r: &crate::run::Run, n: usize, has_terminal: bool, viols: &mut Vec<(String, String)>, tags: &mut Vec<&'static str>) {
@@ -197,6 +200,15 @@ pub fn monitor(c: &Cfg, r: &crate::run::Run, n: usize, has_terminal: bool, viols
                     tags.push("terminal-stop");
                     if !terminal_recorded {
                         v("interrupt-without-terminal", "UserInterrupt without a recorded terminal event".into());
+                    } else if let Some(tl) = last {
+                        // the run stops AT the occurrence that reached the count of a terminal event
+                        let at_terminal = c.events.iter().enumerate().any(|(i, e)| match e.terminal {
+                            Some(k) => s.t_events.get(i).and_then(|l| l.get(k - 1)).map(|te| (te - tl).abs() <= 1e-9 * (1.0 + tl.abs())).unwrap_or(false),
+                            None => false,
+                        });
+                        if !at_terminal {
+                            v("interrupt-not-at-terminal", format!("UserInterrupt, but the last sample t={:e} is not the occurrence of a terminal event that reached its count (t_events {:?})", tl, s.t_events));
+                        }
                     }
                 }
                 other => {
@@ -225,7 +237,7 @@ pub fn run_check(replay: Option<Value>) -> i32 {
     let spans: Vec<f64> = vec![1e-12, 1e-9, 1e-3, 1.0, 1e3, 1e9, f64::INFINITY];
     let fss = [Fs::None, Fs::Seventh, Fs::Span, Fs::TwiceSpan, Fs::WrongSign];
     let mss = [Ms::None, Ms::Inf, Ms::Quarter, Ms::Odd, Ms::FiveSpan];
-    let evs = [Ev::None, Ev::NonTerminal, Ev::Terminal];
+    let evs = [Ev::None, Ev::NonTerminal, Ev::Terminal, Ev::TerminalPair];
     let tols: Vec<f64> = if thorough { vec![1e-3, 1e-8] } else { vec![1e-3] };
     let dims = vec![
         dim("method", &M6.iter().map(|m| mname(*m)).collect::<Vec<_>>()),
@@ -289,6 +301,7 @@ pub fn run_check(replay: Option<Value>) -> i32 {
             Ev::None => vec![],
             Ev::NonTerminal => vec![EventSpec::new(EvKind::T(x0 + dir * 0.37 * nominal)), EventSpec::new(EvKind::Y(0, 0.5))],
             Ev::Terminal => vec![EventSpec::new(EvKind::Y(0, 0.5)), EventSpec::new(EvKind::T(x0 + dir * 0.61 * nominal)).term(1)],
+            Ev::TerminalPair => vec![EventSpec::new(EvKind::T(x0 + dir * (0.61 + 1e-6) * nominal)), EventSpec::new(EvKind::T(x0 + dir * 0.61 * nominal)).term(1)],
         };
         c.budget = 3_000_000;
         if idx[11] == 1 {
@@ -298,7 +311,7 @@ pub fn run_check(replay: Option<Value>) -> i32 {
         let mut out = CaseOut::default();
         let mut vs = vec![];
         let mut tags = vec![];
-        monitor(&c, &r, p.n, ev == Ev::Terminal, &mut vs, &mut tags);
+        monitor(&c, &r, p.n, matches!(ev, Ev::Terminal | Ev::TerminalPair), &mut vs, &mut tags);
         let desc = json!({"key": key, "point": describe(&dims, idx), "cfg": c.json(&p.name), "outcome": r.outcome_name(),
             "t_head": r.sol().map(|s| s.t.iter().take(4).copied().collect::<Vec<_>>()), "t_tail": r.sol().map(|s| s.t.iter().rev().take(4).rev().copied().collect::<Vec<_>>()), "n_samples": r.sol().map(|s| s.t.len()), "nstep": r.sol().map(|s| s.nstep),
             "call_range": [r.st.tmin, r.st.tmax]});
